@@ -407,22 +407,22 @@ Definition inst_access (k : cls) (b : list act) : bool :=
                     | _ => false end) b.
 Definition static_access (k : cls) (b : list act) : bool :=
   existsb (fun a => match a with ACall RSelf m _ => nmem m (non_instance k) | _ => false end) b.
-(* attributes looked up on a Name that is a class of the module, or on `cls` *)
+(* attributes looked up on a Name that is a class of the module, on `cls`, or on super() *)
+Definition looked_of (cn : list name) (in_classm : bool) (a : act) : list name :=
+  match attr_of a with
+  | Some (RCls c, m) => if nmem c cn then [m] else []
+  | Some (RSelf, m) => if in_classm then [m] else []
+  | Some (RSuper, m) => [m]
+  | _ => []
+  end.
+Definition is_classm (x : meth) : bool := match m_kind x with KClassm => true | _ => false end.
 Definition looked_up_on_class (M : module) : list name :=
   let cn := map c_name (classes M) in
   flat_map (fun it => match it with
-     | IClass k => flat_map (fun x => flat_map (fun a =>
-          match attr_of a with
-          | Some (RCls c, m) => if nmem c cn then [m] else []
-          | Some (RSelf, m) => match m_kind x with KClassm => [m] | _ => [] end
-          | _ => [] end) (m_body x)) (c_meths k)
-     | IFunc g => flat_map (fun a => match attr_of a with
-                                     | Some (RCls c, m) => if nmem c cn then [m] else []
-                                     | _ => [] end) (f_body g)
+     | IClass k => flat_map (fun x => flat_map (looked_of cn (is_classm x)) (m_body x)) (c_meths k)
+     | IFunc g => flat_map (looked_of cn false) (f_body g)
      end) (m_items M)
-  ++ flat_map (fun a => match attr_of a with
-                        | Some (RCls c, m) => if nmem c cn then [m] else []
-                        | _ => [] end) (m_main M).
+  ++ flat_map (looked_of cn false) (m_main M).
 Definition rs_meth (looked : list name) (k : cls) (x : meth) : meth :=
   if Nat.eqb (m_params x) 0 then x
   else if is_magic (m_name x) then x
@@ -656,3 +656,108 @@ Definition outc_eqb (a b : outc) : bool :=
 Definition o_sem_case_ok (c : module * list tev * outc) : bool :=
   let '(M, tr, o) := c in
   match run_module 200 M with (tr', o') => list_eqb tev_eqb tr tr' && outc_eqb o o' end.
+
+(* ============================================================================================== *)
+(* Part U : object_oriented.fix_unconventional_class_definitions                                   *)
+(* ============================================================================================== *)
+(* `class C: <bindings>` followed by `C.a = v` statements; the rule moves the assignments into the class
+   body.  Names (globals, class attributes) are numbers n<i> in ONE namespace (a class attribute hides
+   the global of the same name inside the class body); names >= 40 are written __q<i> (mangled in a
+   class body).  Values are opaque: constants, and results of logged calls g(k, v). *)
+Inductive vexpr :=
+| VConst (k : nat)
+| VName (x : name)                 (* a plain name *)
+| VAttr (a : name)                 (* C.a : an attribute of THE class *)
+| VCall (k : nat) (arg : vexpr).   (* g(k, arg): logged *)
+Inductive uval := UInt (k : nat) | URes (k : nat) (v : uval) | UHook (attrs : list name).
+Definition ns := list (name * uval).
+Fixpoint ns_get (n : ns) (x : name) : option uval :=
+  match n with [] => None | (y, v) :: tl => if Nat.eqb x y then Some v else ns_get tl x end.
+(* binding a name: replace in place, or append *)
+Fixpoint ns_set (n : ns) (x : name) (v : uval) : ns :=
+  match n with
+  | [] => [(x, v)]
+  | (y, w) :: tl => if Nat.eqb x y then (y, v) :: tl else (y, w) :: ns_set tl x v
+  end.
+Record uprog := mkU { u_globals : ns; u_hook : bool; u_body : list (name * vexpr);
+                      u_post : list (name * vexpr); u_rest : list vexpr }.
+
+(* look: plain names; attr: C.a (None = NameError / AttributeError) *)
+Fixpoint veval (look attr : name -> option uval) (e : vexpr) (tr : list uval) : option uval * list uval :=
+  match e with
+  | VConst k => (Some (UInt k), tr)
+  | VName x => (look x, tr)
+  | VAttr a => (attr a, tr)
+  | VCall k a => match veval look attr a tr with
+                 | (Some v, tr') => (Some (URes k v), tr' ++ [URes k v])
+                 | r => r
+                 end
+  end.
+(* the class body: names are looked up in the class namespace first, the class itself does not exist yet *)
+Fixpoint ubody (G : ns) (N : ns) (b : list (name * vexpr)) (tr : list uval) : option ns * list uval :=
+  match b with
+  | [] => (Some N, tr)
+  | (a, e) :: tl =>
+      match veval (fun x => match ns_get N x with Some v => Some v | None => ns_get G x end) (fun _ => None) e tr with
+      | (Some v, tr') => ubody G (ns_set N a v) tl tr'
+      | (None, tr') => (None, tr')
+      end
+  end.
+(* C.a = v after the class statement: module scope *)
+Fixpoint upost (G : ns) (N : ns) (b : list (name * vexpr)) (tr : list uval) : option ns * list uval :=
+  match b with
+  | [] => (Some N, tr)
+  | (a, e) :: tl =>
+      match veval (ns_get G) (ns_get N) e tr with
+      | (Some v, tr') => upost G (ns_set N a v) tl tr'
+      | (None, tr') => (None, tr')
+      end
+  end.
+Fixpoint urest (G N : ns) (b : list vexpr) (tr : list uval) : bool * list uval :=
+  match b with
+  | [] => (true, tr)
+  | e :: tl => match veval (ns_get G) (ns_get N) e tr with
+               | (Some v, tr') => urest G N tl (tr' ++ [v])
+               | (None, tr') => (false, tr')
+               end
+  end.
+(* result: finished normally?, the log, the attributes of the class at the end.  A class with a
+   decorator / a base with __init_subclass__ (u_hook) shows its attributes when it is created. *)
+Definition urun (p : uprog) : bool * list uval * ns :=
+  match ubody (u_globals p) [] (u_body p) [] with
+  | (None, tr) => (false, tr, [])
+  | (Some N, tr) =>
+      let tr1 := if u_hook p then tr ++ [UHook (map fst N)] else tr in
+      match upost (u_globals p) N (u_post p) tr1 with
+      | (None, tr2) => (false, tr2, [])
+      | (Some N2, tr2) => let (ok, tr3) := urest (u_globals p) N2 (u_rest p) tr2 in (ok, tr3, N2)
+      end
+  end.
+
+Fixpoint v_names (e : vexpr) : list name :=
+  match e with VConst _ => [] | VName x => [x] | VAttr _ => [] | VCall _ a => v_names a end.
+Fixpoint v_reads_class (e : vexpr) : bool :=
+  match e with VAttr _ => true | VCall _ a => v_reads_class a | _ => false end.
+Definition u_mangled (a : name) : bool := 40 <=? a.
+(* the longest prefix of the assignments that may move, given the names bound in the class body *)
+Fixpoint fu_split (bound : list name) (post : list (name * vexpr)) : list (name * vexpr) * list (name * vexpr) :=
+  match post with
+  | [] => ([], [])
+  | (a, e) :: tl =>
+      if u_mangled a || v_reads_class e || existsb (fun x => nmem x bound) (v_names e) then ([], post)
+      else let (mv, st) := fu_split (a :: bound) tl in ((a, e) :: mv, st)
+  end.
+Definition fu_model (p : uprog) : uprog :=
+  let (mv, st) := fu_split (map fst (u_body p)) (u_post p) in
+  mkU (u_globals p) (u_hook p) (u_body p ++ mv) st (u_rest p).
+
+Fixpoint vexpr_eqb (a b : vexpr) : bool :=
+  match a, b with
+  | VConst x, VConst y | VName x, VName y | VAttr x, VAttr y => Nat.eqb x y
+  | VCall k x, VCall j y => Nat.eqb k j && vexpr_eqb x y
+  | _, _ => false
+  end.
+Definition bind_eqb (p q : name * vexpr) : bool := Nat.eqb (fst p) (fst q) && vexpr_eqb (snd p) (snd q).
+Definition u_case_ok (c : uprog * list (name * vexpr) * list (name * vexpr)) : bool :=
+  let '(p, body', post') := c in
+  list_eqb bind_eqb (u_body (fu_model p)) body' && list_eqb bind_eqb (u_post (fu_model p)) post'.
